@@ -27,6 +27,7 @@ theorem encInt_len (i : Int) (k : Nat) (h : i.natAbs < 10 ^ (k + 1)) : (encInt i
   rcases encInt_cases i with ⟨_, e⟩ | ⟨_, e⟩ <;> rw [e] <;> simp [encNat] <;> omega
 
 def Int32 (i : Int) : Prop := -2147483648 ≤ i ∧ i ≤ 2147483647
+instance (i : Int) : Decidable (Int32 i) := by unfold Int32; infer_instance
 
 theorem encInt_len32 (i : Int) (h : Int32 i) : (encInt i).length ≤ 11 := by
   have : i.natAbs < 10 ^ (9 + 1) := by
@@ -146,6 +147,7 @@ theorem strSuffix : str "suffix " = [115, 117, 102, 102, 105, 120, 32] := by dec
 theorem strOptions : str "Options" = [79, 112, 116, 105, 111, 110, 115] := by decide
 
 def Int64 (i : Int) : Prop := -9223372036854775808 ≤ i ∧ i ≤ 9223372036854775807
+instance (i : Int) : Decidable (Int64 i) := by unfold Int64; infer_instance
 
 theorem encInt_len64 (i : Int) (h : Int64 i) : (encInt i).length ≤ 20 := by
   have : i.natAbs < 10 ^ (18 + 1) := by
@@ -208,6 +210,10 @@ structure GoodSufTok (t : Bytes) : Prop where
   short : t.length ≤ 400
   clean : ∀ c ∈ t, c ≠ 10 ∧ c ≠ 0
   scan : strtodLen (32 :: t ++ [10]) = t.length + 1
+
+theorem goodSufTokB_sound (t : Bytes) (h : goodSufTokB t = true) : GoodSufTok t := by
+  simp only [goodSufTokB, Bool.and_eq_true, decide_eq_true_eq, List.all_eq_true, bne_iff_ne, ne_eq, beq_iff_eq] at h
+  exact ⟨h.1.1, fun c hc => h.1.2 c hc, h.2⟩
 
 theorem encNat_clean (n : Nat) : ∀ c ∈ encNat n, c ≠ 10 ∧ c ≠ 0 ∧ c ≠ 32 := by
   have := encInt_clean (n : Int); rwa [encInt_ofNat] at this
